@@ -262,6 +262,33 @@ def _check_object(case):
                 ok2 = False
             if not ok2:
                 fails.append({"site": f"loading a file that was overwritten returns stale data [{name}]", "msg": f"{letters}", "data": letters})
+            # the file name in its other legitimate forms: a bare name (current directory), a relative path, a pathlib.Path
+            from pathlib import Path
+
+            cwd = os.getcwd()
+            try:
+                os.chdir(d)
+                os.makedirs("sub", exist_ok=True)
+                for form, fn in (("bare name", "bare.dill"), ("relative path", os.path.join("sub", "rel.dill")), ("Path object", Path("p.dill"))):
+                    try:
+                        sol.save(fn)
+                        b3 = load_solution(fn)
+                        ok3 = len(b3.t) == len(sol.t) and np.array_equal(np.asarray(b3.q), np.asarray(sol.q))
+                        msg3 = "loaded solution differs"
+                    except Exception as e:  # noqa
+                        ok3, msg3 = False, f"{type(e).__name__}: {e}"
+                    if not ok3:
+                        fails.append({"site": f"save/load with the file name given as a {form} [{name}]", "msg": f"{letters}: {msg3}", "data": dict(letters, form=form)})
+            finally:
+                os.chdir(cwd)
+                import shutil
+
+                shutil.rmtree(os.path.join(d, "sub"), ignore_errors=True)
+                for fn in ("bare.dill", "p.dill"):
+                    try:
+                        os.remove(os.path.join(d, fn))
+                    except OSError:
+                        pass
     finally:
         try:
             if os.path.exists(path):
